@@ -7,6 +7,8 @@ Op lines (one self-contained scenario each):
       ops:  ws:<t>            rewrite, same size, stamped mtime=ctime=t
             wo:<t>:<size>     rewrite with another size
             to:<t>            touch (content kept, mtime=ctime=t)
+            rs:<t>:<m>        content replaced, same size, mtime := m (kept or set back), ctime = t
+            ro:<t>:<m>:<size> content replaced, another size, mtime := m, ctime = t
             pl                plain request
             rq:<j>:<lm>:<tpl> request carrying validators of response j (0-based among the requests)
                               lm=1: If-Modified-Since = Last-Modified text of response j
@@ -45,6 +47,7 @@ THEOREMS = [
     "Baize.Conditional.no_stale_304",
     "Baize.Conditional.no_stale_304_strict",
     "Baize.Conditional.no_stale_304_spaced",
+    "Baize.Conditional.no_stale_304_stamped_spaced",
     "Baize.Conditional.modified_gets_full",
     "Baize.Conditional.fresh_revalidates",
     "Baize.Conditional.star_matches_existing",
@@ -54,14 +57,16 @@ THEOREMS = [
     "Baize.Conditional.source_pinned",
     "Baize.Conditional.weak_in_list_witness",
     "Baize.Conditional.or_shape_witness",
+    "Baize.Conditional.ims_field_witness",
 ]
 MANIFEST = {
     "technique": "Lean 4 proof (induction over histories with a reachability invariant on file snapshots) + "
                  "differential correspondence of the Lean model with Files/Pages on a virtualised file clock",
     "text": "Lean theorems over an executable model of if_none_match / if_modified_since / the 304-vs-file decision "
-            "of file_response, for every history of rewrites, touches and requests under a monotone clock: a 304 for "
+            "of file_response, for every history of rewrites, touches, mtime-preserving or mtime-rewinding replacements "
+            "and requests under a clock where only the change time is monotone: a 304 for "
             "validators of response j implies the file is the one served at j (up to the validators' own "
-            "resolution, stated explicitly), a size change or a >=1 s move of the timestamps gives a full response "
+            "resolution, stated explicitly), a size change or a >=1 s move of the change time gives a full response "
             "with a new ETag, the ETag of a 200 revalidates strong, weak and inside any comma list, '*' matches. "
             "The model is tied to the source on every run by regenerated constants (W/ literal, separator, strip "
             "characters, '*', the stat fields behind If-Modified-Since / Last-Modified / ETag, per interface) and by "
@@ -75,7 +80,8 @@ MANIFEST = {
 CORRESPONDENCE = ("Baize.Conditional.exec / ifNoneMatch / ifModifiedSince  vs  baize.{wsgi,asgi}.staticfiles."
                   "{Files,Pages} (file_response, if_none_match, if_modified_since) on a virtual os.stat")
 RULE = ("corpus of past failures; exhaustive histories (first op a plain request, then every sequence over "
-        "{rewrite same/other size, touch, plain, request with ETag / Last-Modified / both of any earlier response}) "
+        "{rewrite same/other size, touch, replace same/other size with mtime kept or set back, plain, request with "
+        "ETag / Last-Modified / both of any earlier response}) "
         "of length <=5 (quick) / <=7 (thorough, alphabet thinned at 6-7) for tick sizes 0.25 s, 1 s, 3 s on both "
         "interfaces; random histories of length 30 with weak tags, lists, padding, '*', garbage templates, "
         "same-tick modifications and ctime != mtime starts on Files/Pages x WSGI/ASGI; exhaustive short "
@@ -91,13 +97,15 @@ TRUSTED = [
     "the harness's virtual os.stat (a real os.stat_result with injected size/mtime/ctime) stands for the file system",
 ]
 ASSUMPTIONS = [
-    "clock hypothesis Monotone: every modification stamps mtime=ctime with the current time, which never decreases; "
-    "the initial file has mtime <= ctime <= the first modification time (no future-dated stamps)",
+    "clock hypothesis CtimeMonotone: every modification (rewrite, touch, or a replacement that keeps or rewinds "
+    "mtime: cp -p, rsync -t, backup restore, os.utime) stamps ctime with the current time, which never decreases; "
+    "mtime is arbitrary but never in the future (initially mtime <= ctime)",
     "times are non-negative (after the epoch) and exactly representable (integer multiples of 1/tps s, tps in 1,2,4,8)",
     "request header text is Latin-1",
-    "a same-tick same-size rewrite and, for a request carrying only If-Modified-Since, a modification inside the "
-    "second of the advertised Last-Modified are below the validators' resolution (no server reading stat can tell); "
-    "the theorems state these cases explicitly, the oracle does not flag them",
+    "a modification that leaves mtime and size as they were (same-tick same-size rewrite, same-size replacement "
+    "with preserved mtime) is invisible to the entity-tag (SHA-1 of mtime and size, the anchored mechanism), and a "
+    "modification whose change time lies inside the second of the advertised Last-Modified is invisible to a "
+    "request carrying only If-Modified-Since; the theorems state these cases explicitly, the oracle does not flag them",
 ]
 PARTIAL = None
 ETAG = "<E>"  # the symbol "opaque entity-tag of response j" inside a parsed / generated template
@@ -215,6 +223,10 @@ def parse_hist(line):
             ops.append(("wo", int(f[1]), int(f[2])))
         elif f[0] == "to":
             ops.append(("to", int(f[1])))
+        elif f[0] == "rs":
+            ops.append(("rs", int(f[1]), int(f[2])))
+        elif f[0] == "ro":
+            ops.append(("ro", int(f[1]), int(f[2]), int(f[3])))
         elif f[0] == "pl":
             ops.append(("rq", 0, False, []))
         elif f[0] == "rq":
@@ -259,6 +271,12 @@ async def _run_hist(line):
         elif op[0] == "to":
             mtime, ctime = op[1], op[1]
             _VIRT[_FILE] = _mkstat(size, mtime, ctime, tps)
+        elif op[0] == "rs":
+            version, ctime, mtime = version + 1, op[1], op[2]
+            write()
+        elif op[0] == "ro":
+            version, ctime, mtime, size = version + 1, op[1], op[2], op[3]
+            write()
         else:
             _, j, use_lm, tpl = op
             src = raw[j] if j < len(raw) else (None, None)
@@ -421,10 +439,18 @@ def oracle_hist(line, out):
         if op[0] == "to":
             mtime, ctime, mods = op[1], op[1], mods + 1
             continue
+        if op[0] == "rs":
+            version, ctime, mtime, mods = version + 1, op[1], op[2], mods + 1
+            continue
+        if op[0] == "ro":
+            version, ctime, mtime, mods = version + 1, op[1], op[2], mods + 1
+            size = op[3]
+            continue
         _, j, use_lm, tpl = op
         k = len(snaps)
         f = toks[k].split("/")
-        snap = {"status": f[0], "version": version, "size": size, "mtime": mtime, "mods": mods, "etag": None}
+        snap = {"status": f[0], "version": version, "size": size, "mtime": mtime, "ctime": ctime, "mods": mods,
+                "etag": None}
         snaps.append(snap)
         where = "request #%d (%s)" % (k, toks[k])
         if f[0] not in ("200", "304"):
@@ -475,7 +501,10 @@ def oracle_hist(line, out):
         carries_etag = ETAG in symbols
         changed = version != src["version"]
         stat_diff = (src["mtime"], src["size"]) != (mtime, size)
-        moved_1s = mtime - src["mtime"] >= tps or src["mtime"] - mtime >= tps
+        # "the timestamps moved by at least a second": the change time (which every modification stamps and
+        # which cannot be set back) or the modification time went forward by >= 1 s.  A replacement that
+        # keeps or rewinds mtime (cp -p, rsync -t, restore, os.utime) moves only the change time.
+        moved_1s = ctime - src["ctime"] >= tps or mtime - src["mtime"] >= tps
         if f[0] == "304":
             if carries_etag or sends_lm:
                 if has_inm:
@@ -486,15 +515,18 @@ def oracle_hist(line, out):
                                                      "size" if src["size"] != size else "mtime"))
                 else:
                     if changed and moved_1s:
-                        return ("%s: stale 304 — Last-Modified of response #%d, file rewritten >= 1 s later"
-                                % (where, j))
+                        return ("%s: stale 304 — Last-Modified of response #%d (version %d), file replaced >= 1 s "
+                                "later (now version %d, %s, mtime %s)"
+                                % (where, j, src["version"], version,
+                                   "another size" if src["size"] != size else "same size",
+                                   "not newer" if mtime <= src["mtime"] else "newer"))
         else:
             # fresh copy: the ETag of j, listed strong or weak in a well-formed list, must revalidate
             if tags is not None and (ETAG,) in tags and src["mods"] == mods:
                 return "%s: unchanged file, ETag of response #%d is listed, expected 304" % (where, j)
         if f[0] == "200" and (carries_etag or sends_lm):
-            if (src["size"] != size or moved_1s) and snap["etag"] == src["etag"]:
-                return "%s: modified file served with the old ETag" % where
+            if stat_diff and snap["etag"] == src["etag"]:
+                return "%s: modified file (size or mtime changed) served with the old ETag" % where
     return None
 
 
@@ -557,7 +589,7 @@ def nontrivial(line, out):
     for tok in a[7:]:
         if tok == "pl":
             seen200 = True
-        elif tok[:2] in ("ws", "wo", "to"):
+        elif tok[:2] in ("ws", "wo", "to", "rs", "ro"):
             mod_after = mod_after or seen200
         elif tok.startswith("rq") and mod_after:
             return True
@@ -579,8 +611,16 @@ def describe(line):
             steps.append({"request": {"if-none-match": hdr or None,
                                       "if-modified-since": ("<last-modified of #%d>" % op[1]) if op[2] else None}})
         else:
-            steps.append({{"ws": "rewrite same size", "wo": "rewrite other size", "to": "touch"}[op[0]]:
-                          {"time_s": op[1] / tps, **({"size": op[2]} if op[0] == "wo" else {})}})
+            d = {"time_s": op[1] / tps}
+            if op[0] == "wo":
+                d["size"] = op[2]
+            if op[0] in ("rs", "ro"):
+                d["mtime_set_to_s"] = op[2] / tps
+            if op[0] == "ro":
+                d["size"] = op[3]
+            steps.append({{"ws": "rewrite same size", "wo": "rewrite other size", "to": "touch",
+                           "rs": "replace, same size, mtime not stamped", "ro": "replace, other size, mtime not stamped"}
+                          [op[0]]: d})
     return {"interface": iface, "app": app, "ticks_per_second": tps,
             "initial": {"size": size0, "mtime_s": m0 / tps, "ctime_s": c0 / tps}, "history": steps}
 
@@ -634,6 +674,32 @@ def rq_list(j, members, lm=False):
     return "rq:%d:%d:%s" % (j, 1 if lm else 0, tpl_text(pieces))
 
 
+def etag_collisions(limit):
+    """pairs of distinct (mtime seconds, size) states, the second later than the first, with equal generate_etag"""
+    from baize.responses import FileResponseMixin
+
+    def tag(m, size):
+        return FileResponseMixin.generate_etag(_mkstat(size, m, m, 1))
+
+    found = []
+    try:
+        seen = {}
+        for dm in range(0, 1500):
+            for size in (20, 21, 5, 64):
+                m = BASE + dm
+                t = tag(m, size)
+                if t in seen and seen[t] != (m, size):
+                    if seen[t][0] < m:
+                        found.append((seen[t], (m, size)))
+                        if len(found) >= limit:
+                            return found
+                else:
+                    seen.setdefault(t, (m, size))
+    except Exception:  # noqa - a generate_etag that rejects this stat shape is seen by the histories themselves
+        return found
+    return found
+
+
 def hist(iface, app, tps, size0, m0, c0, ops):
     return "cond_hist %s %s %d %d %d %d %s" % (iface, app, tps, size0, m0, c0, " ".join(ops))
 
@@ -642,16 +708,16 @@ TICKS = [(4, 1), (1, 1), (1, 3)]  # (ticks per second, ticks per step): 0.25 s, 
 BASE = 1700000000
 
 
-def exhaustive(n, kinds, thin=False):
+def exhaustive(n, kinds, thin=False, mods=("ws", "wo", "to", "rs", "ro")):
     """abstract histories of exactly n ops: first a plain request, last a conditional request.
-    Items: 'ws' 'wo' 'to' 'pl' ('rq', j, kind)."""
+    Items: 'ws' 'wo' 'to' 'rs' 'ro' 'pl' ('rq', j, kind)."""
     def rec(prefix, nreq):
         if len(prefix) == n:
             yield prefix
             return
         last = len(prefix) == n - 1
         if not last:
-            for m in ("ws", "wo", "to"):
+            for m in mods:
                 yield from rec(prefix + [m], nreq)
             if not thin:
                 yield from rec(prefix + ["pl"], nreq + 1)
@@ -664,6 +730,7 @@ def exhaustive(n, kinds, thin=False):
 
 def concretise(abstract, tps, step, base, size0=20):
     t = base * tps
+    mt = t  # current mtime
     size = size0
     ops = []
     for a in abstract:
@@ -671,11 +738,23 @@ def concretise(abstract, tps, step, base, size0=20):
             ops.append("pl")
         elif a in ("ws", "to"):
             t += step
+            mt = t
             ops.append("%s:%d" % (a, t))
         elif a == "wo":
             t += step
+            mt = t
             size = size + 1 if size < size0 + 3 else size0
             ops.append("wo:%d:%d" % (t, size))
+        elif a == "rs":
+            # other content of the same size whose mtime is the one the file already had (cp -p, rsync -t)
+            t += step
+            ops.append("rs:%d:%d" % (t, mt))
+        elif a == "ro":
+            # other content of another size with an OLDER mtime (restore from a backup)
+            t += step
+            mt = base * tps - 2 * step if mt >= base * tps else mt - step
+            size = size + 1 if size < size0 + 3 else size0
+            ops.append("ro:%d:%d:%d" % (t, mt, size))
         else:
             ops.append(rq(a[1], a[2]))
     return ops
@@ -690,7 +769,7 @@ def random_hist(rng, length=30):
     m0 = base * tps + rng.randrange(0, tps)
     c0 = m0 + rng.choice([0, 0, 0, 1, tps, tps + 1, 5 * tps])
     size0 = rng.choice([4, 5, 20, 20, 64, 300])
-    t, size = c0, size0
+    t, size, mt = c0, size0, m0
     ops = []
     nreq = 0
     plain = []
@@ -700,13 +779,24 @@ def random_hist(rng, length=30):
             if nreq and rng.random() < 0.7 or r < 0.3 and rng.random() < 0.5:
                 t += rng.choice([0, 0, 1, 1, 1, 2, 3, 5]) * step
                 k = rng.random()
-                if k < 0.4:
+                if k < 0.25:
+                    mt = t
                     ops.append("ws:%d" % t)
-                elif k < 0.8:
+                elif k < 0.5:
+                    mt = t
                     size = rng.choice([s for s in (4, 5, 6, 20, 21, 64, 300) if s != size])
                     ops.append("wo:%d:%d" % (t, size))
-                else:
+                elif k < 0.62:
+                    mt = t
                     ops.append("to:%d" % t)
+                else:
+                    # replacement that does not stamp mtime: kept, the initial one, older, (rarely) now
+                    mt = min(t, max(0, rng.choice([mt, mt, m0, mt - step, mt - rng.randrange(1, 6) * tps, m0 - tps, t])))
+                    if k < 0.8:
+                        ops.append("rs:%d:%d" % (t, mt))
+                    else:
+                        size = rng.choice([s for s in (4, 5, 6, 20, 21, 64, 300) if s != size])
+                        ops.append("ro:%d:%d:%d" % (t, mt, size))
                 continue
             ops.append("pl")
             plain.append(nreq)
@@ -747,22 +837,35 @@ def cases(rng, tier):
     thorough = tier == "thorough"
     # --- exhaustive histories
     core = ["e", "m", "b"]
-    # (length, request kinds, thinned alphabet, spread): spread 0 = every tick size on both interfaces,
-    # 1 = every tick size, interfaces alternating, 2 = tick size and interface alternating
-    plans = [(n, core, False, 0) for n in range(2, 5)]
+    # (length, request kinds, thinned alphabet, spread, modification kinds); spread 0 = every tick size on both
+    # interfaces, 3 = 0.25 s and alternately 1 s / 3 s, interfaces alternating, 2 = tick size and interface alternating
+    allmods = ("ws", "wo", "to", "rs", "ro")
+    plans = [(n, core, False, 0, allmods) for n in range(2, 5)]
     if thorough:
-        plans += [(5, core, False, 0), (6, core, True, 1), (7, ["e", "m"], True, 2), (5, ["w", "bw", "s"], False, 1)]
+        plans += [(5, core, False, 0, allmods), (6, core, True, 3, allmods),
+                  (7, ["e", "m"], True, 2, ("wo", "rs", "ro")), (5, ["w", "bw", "s"], False, 2, allmods)]
     else:
-        plans += [(5, core, False, 1), (4, ["w", "bw", "s"], False, 0)]
-    for n, kinds, thin, spread in plans:
-        for idx, abstract in enumerate(exhaustive(n, kinds, thin)):
+        plans += [(5, core, False, 3, allmods), (4, ["w", "bw", "s"], False, 0, allmods)]
+    for n, kinds, thin, spread, mods in plans:
+        for idx, abstract in enumerate(exhaustive(n, kinds, thin, mods)):
             for ti, (tps, step) in enumerate(TICKS):
                 if spread == 2 and ti != idx % 3:
+                    continue
+                if spread == 3 and ti != 0 and ti != 1 + idx % 2:
                     continue
                 ops = concretise(abstract, tps, step, BASE)
                 ifaces = ("wsgi", "asgi") if spread == 0 else (("wsgi", "asgi")[(idx + ti) % 2],)
                 for iface in ifaces:
                     yield hist(iface, "files", tps, 20, BASE * tps, BASE * tps, ops)
+    # --- entity-tag collisions: the model takes the tag function for injective on (mtime, size).  Look for two
+    #     file states the REAL generate_etag maps to one tag (none with a cryptographic hash; a checksum or a
+    #     truncated / rounded input gives some) and, if there are any, play the histories that expose them.
+    for (m1, s1), (m2, s2) in etag_collisions(6 if not thorough else 40):
+        mod = "ws:%d" % m2 if s1 == s2 else "wo:%d:%d" % (m2, s2)
+        for iface in ("wsgi", "asgi"):
+            for app in ("files", "pages"):
+                yield hist(iface, app, 1, s1, m1, m1, ["pl", mod, "rq:0:0:34/E/34"])
+                yield hist(iface, app, 1, s1, m1, m1, ["pl", mod, "rq:0:1:34/E/34"])
     # --- random long histories, every interface x app
     n_random = 400 if not thorough else 1500
     variants = [(i, a) for i in ("wsgi", "asgi") for a in ("files", "pages", "pagesx")]
